@@ -4,23 +4,24 @@
 # Private copies of the Lean project, the harness and the surface crate are used (build/mut/<slot>/…), so several
 # mutest.sh can run side by side (slot = $MUT_SLOT, default 0) and the main checks are not disturbed.
 set -u
+V=$(dirname "$(readlink -f "$0")")
 patch=$(readlink -f "$1"); shift
 props="$@"
-[ -z "$props" ] && props=$(python3 -c "import json; print(' '.join(c['property_id'] for c in json.load(open('/verif/MANIFEST.json'))['checks']))")
+[ -z "$props" ] && props=$(python3 -c "import json; print(' '.join(c['property_id'] for c in json.load(open('$V/MANIFEST.json'))['checks']))")
 slot=${MUT_SLOT:-0}
-cd /verif
+cd $V
 W=/tmp/verif_mut_$slot
 git -C /repo worktree remove --force $W 2>/dev/null; rm -rf $W
 git -C /repo worktree add -q --detach $W HEAD || exit 2
 trap 'git -C /repo worktree remove --force $W 2>/dev/null; rm -rf $W' EXIT
 git -C $W apply "$patch" || { echo "patch does not apply"; exit 2; }
 export VERIF_REPO=$W
-export VERIF_LEAN_DIR=/verif/build/mut/$slot/lean
-export VERIF_EVIDENCE_DIR=/verif/build/mut/$slot/evidence
-export VERIF_REPLAY_DIR=/verif/build/mut/$slot/replays
-O=/verif/build/mut/$slot/out
+export VERIF_LEAN_DIR=$V/build/mut/$slot/lean
+export VERIF_EVIDENCE_DIR=$V/build/mut/$slot/evidence
+export VERIF_REPLAY_DIR=$V/build/mut/$slot/replays
+O=$V/build/mut/$slot/out
 mkdir -p $VERIF_LEAN_DIR $O; rm -f $O/*.out
-rsync -a --delete /verif/lean/ $VERIF_LEAN_DIR/
+rsync -a --delete $V/lean/ $VERIF_LEAN_DIR/
 caught=""; missed=""
 # the first check rebuilds the shared artefacts under the lock; the rest run ${MUT_PAR:-8} at a time
 first=$(echo $props | cut -d' ' -f1)
